@@ -206,7 +206,7 @@ func evalCase(args ...string) string { return lib.App("CEval", lib.App("CAsp", a
 func main() {
 	gologging.SetLevel(gologging.CRITICAL, "plz")
 	lib.Main("C18", func(c *lib.Ctx) {
-		c.Model("From PlzV Require Import Model.C16_Syntax Model.C16_Eval Model.C16 Model.C18_Config Model.C18.", "C18.case", "C18.check")
+		c.Model("From PlzV Require Import Model.C16_Syntax Model.C16_Eval Model.C16 Model.C18_Config Model.C18_Attr Model.C18.", "C18.case", "C18.check")
 		c.Rule("every application of a builtin or operator that takes a list or dict (sorted reversed enumerate any all zip min max map filter reduce len in + == != * " +
 			"comprehension for join index slice str truth unpack < keys values items get | isinstance json) to generated values (int/str/nested lists, empty list, dicts with list and dict " +
 			"members): interpreted by the real asp once with the value defined in the BUILD file and once imported through subinclude. Follow-up streams: (sum) the same applications to " +
